@@ -291,17 +291,26 @@ def replay_stages(case, cx):
     cfg = LM.default_cfg(**case)
     if cx.get("vals") is None:
         return dict(reproduced=True, what="multi-stage driver: %s" % cx["info"], key="stages/first-stage constraint dropped")
-    vals = cx["vals"][0]
-    try:
-        pf, X = Q.run_real(cfg, vals, cx["growth"])
-    except AssertionError as e:
-        return dict(reproduced=False, what="real optimiser failed: %s" % e)
-    if cfg["opt"] == "to_humans":
+    if cfg["opt"] != "to_humans":
+        return dict(reproduced=False, what="feed-maximising round: counterexample not replayed")
+    # the solver's model says the later-stage constraint systems ALLOW a result below the optimum; whether CBC's tie-breaking solves use that room depends on
+    # the instance (their objectives must gain from it).  The solver's own instance is replayed first, then a few generic instances of the same configuration.
+    import random
+    from harness.C02_optimum import _concrete_vals
+    rng = random.Random(12345)
+    tried = []
+    for vals in [cx["vals"][0]] + [_concrete_vals(cfg, rng) for _ in range(4)]:
+        try:
+            pf, X = Q.run_real(cfg, vals, cx["growth"])
+        except AssertionError as e:
+            tried.append("real optimiser failed: %s" % str(e)[:80])
+            continue
         final = min(float(x) for x in X["consumed_kcals"])
-        bad = final < pf * (1 - 1e-4) - 1e-9
-        return dict(reproduced=bool(bad), what="after the tie-breaking solves the worst month's intake is %r while the first-stage optimum was %r" % (final, pf), inputs=dict(case=case, supplies=vals),
-                    observed=dict(first_stage=pf, final_min_month=final), key="stages/headline degraded by later solves")
-    return dict(reproduced=False, what="feed-maximising round: counterexample not replayed")
+        tried.append((pf, final))
+        if final < pf * (1 - 1e-4) - 1e-9:
+            return dict(reproduced=True, what="after the tie-breaking solves the worst month's intake is %r while the first-stage optimum was %r" % (final, pf), inputs=dict(case=case, supplies=vals),
+                        observed=dict(first_stage=pf, final_min_month=final), key="stages/headline degraded by later solves")
+    return dict(reproduced=False, what="the later stages' constraints allow a result below the optimum, but CBC did not use the room on the solver's instance nor on 4 generic ones: %s" % tried)
 
 
 def main(tier, seed, only=None):
@@ -315,6 +324,8 @@ def main(tier, seed, only=None):
     full = dict.fromkeys(LM.FOODS, True)
     core = dict(SEAWEED=False, OUTDOOR_GROWING=True, STORED_FOOD=True, MEAT=True, METHANE_SCP=False, CELLULOSIC_SUGAR=False)
     stages = [dict(N=n, opt=o, store=s, flags=f) for n in ([4, 14] if not thorough else [3, 4, 9, 14, 15]) for o in ("to_humans", "to_animals") for s in (True, False) for f in (full, core)]
+    # the optimiser branches on the population (countries under 10 million get looser pins): both sides of that branch
+    stages += [dict(N=4, opt=o, store=s, flags=full, pop=p) for o in ("to_humans", "to_animals") for s in (True, False) for p in (5e5, 9.9e6, 8e9)]
     groups = [
         dict(name="headline_breakdown_and_saved_table", fn="worker_chain", cases=chain, replay=replay_chain,
              functions=["Extractor.extract_results", "extract_to_humans_feed_and_biofuel", "extract_generic_results", "to_monthly_list", "extract_outdoor_crops_results", "create_food_object_from_fat_protein_variables",
@@ -328,7 +339,7 @@ def main(tier, seed, only=None):
         dict(name="later_stages_keep_the_optimum", fn="worker_stages", cases=stages, replay=replay_stages,
              functions=["Optimizer.run_optimizations_on_constraints", "constrain_next_optimization_to_have_same_minimum_starvation", "constrain_next_optimization_to_have_same_feed_biofuel",
                         "optimize_best_food_consumption_to_go_to_humans", "constrain_next_optimization_to_have_same_total_resilient_foods_in_feed", "reduce_fluctuations_with_a_final_optimization"],
-             bounds="N in {4,14} (thorough 3..15), both round types, storage on/off, two flag sets", symbolic="all supplies, all LP variables, the first-stage optimum and every value read back from the solver between stages",
+             bounds="N in {4,14} (thorough 3..15), both round types, storage on/off, two flag sets; population 5e7, and 5e5 / 9.9e6 / 8e9 at N=4", symbolic="all supplies, all LP variables, the first-stage optimum and every value read back from the solver between stages",
              assumptions=["solver status 1 at every stage", "values read back between stages are arbitrary non-negative numbers"], stubs=["lpsym/standin.py incl. LpConstraint-as-expression semantics"], outside=["CBC's tolerance (replay only)"]),
     ]
     vlib.run_groups(rep, MOD, groups, seed, only)
